@@ -22,7 +22,7 @@ LOCKDIR = os.path.join(ROOT, ".build")
 BUILD = LOCKDIR if REPO == "/repo" else os.path.join(LOCKDIR, "alt-" + hashlib.sha256(REPO.encode()).hexdigest()[:10])
 COQ = os.path.join(ROOT, "coq")
 HARNESS = os.path.join(ROOT, "harness")
-EVID = os.path.join(ROOT, "evidence")
+EVID = os.environ.get("VERIF_EVIDENCE_DIR") or os.path.join(ROOT, "evidence")   # sweeps over other seeds write elsewhere
 REPLAYS = os.path.join(ROOT, "replays")
 NPROC = os.cpu_count() or 4
 
